@@ -125,6 +125,80 @@ PROPS = {
         },
         "assumptions": [WALKERS, "base files are valid (C02/C03)"],
     },
+    "C08": {
+        "level": "exploration",
+        "variants": {
+            "quick": [("rel", {})],
+            "thorough": [("rel", {"timeout": 4 * 3600})],
+        },
+        "floors": ["out_of_order_runs", "reorder_buffer_runs"],
+        "rule": "scenario = (MT type x stream maker {own MT writer, ST writer chunked / unchunked (dependent chunks), preset "
+                "dictionary, hand-built uncompressed units, liblzma raw LZMA2; LZIP ST/MT writer, empty members} x worker "
+                "count {0,1,2..32,1000} x unit size x data with a unit stamp every 64 bytes x read-buffer sequence x write "
+                "partition x seeded failpoint schedule). Oracle: MT writer output decodes with the ST reader and the MT "
+                "reader to the written bytes; MT reader output equals the ST reader's output on the same valid stream. "
+                "Cell = type/maker|worker class|unit class|length class|data kind; non-trivial = non-empty data.",
+        "manifest": {
+            "text": "Exploration over inputs, configurations and SAMPLED schedules: real threads with seeded failpoint noise "
+                    "at the existing suspension points, a ThreadSanitizer build of the same scenarios and Miri seeds. Evidence "
+                    "reports distinct completion orders and schedule hashes actually observed. Interleavings are sampled, never "
+                    "enumerated.",
+            "note": "The ST reader is the sequential model; schedules come from the OS scheduler + failpoint delays, TSan and "
+                    "Miri's seeded scheduler. No deterministic runtime is substituted for std::sync.",
+            "technique": "runtime monitoring: differential MT-vs-ST oracle under failpoint schedule noise, TSan, Miri",
+        },
+        "assumptions": ["ST readers/writers are the sequential model (judged by C01/C02)",
+                        "schedules are sampled, not enumerated"],
+    },
+    "C09": {
+        "level": "fault_enumeration",
+        "variants": {
+            "quick": [("rel", {})],
+            "thorough": [("rel", {"timeout": 4 * 3600})],
+        },
+        "floors": ["fault_corrupt-unit", "fault_truncated", "fault_zero-bytes", "fault_source-error@call",
+                   "fault_sink-error", "fault_worker-failure"],
+        "rule": "scenario = (MT reader x {valid, unit k corrupt, control byte corrupt, truncated at a sampled position, zero "
+                "bytes, missing terminator / cut trailer, source error kind K at read call j or at byte b, garbage} | MT "
+                "writer x {no fault, sink error kind K at write call j, short writes, flush error, injected worker failure in "
+                "unit k, Interrupted} x write partition, mid-stream flushes, calls after an error) x worker count {1,2,4,16} "
+                "x seeded failpoint schedule. Every call runs under a watchdog whose firing only triggers the exact stuck "
+                "predicate (all threads sleeping, CPU time constant, in-memory I/O). Oracle: returns; Err whenever the ST "
+                "reader fails on the same faulty input; success only with complete data; source/sink error kinds preserved. "
+                "Cell = type|fault class|workers; non-trivial = a fault or valid run was judged.",
+        "manifest": {
+            "text": "Fault enumeration over inputs (fault positions sampled per run from the full space of small streams) "
+                    "combined with sampled schedules; termination is decided by an exact stuck predicate, never by a "
+                    "missed deadline.",
+            "note": "Unbounded 'eventually' is restated as: the call returns, or the process is provably stuck (no runnable "
+                    "thread, no external event possible). Schedules are sampled.",
+            "technique": "runtime monitoring: fault injection + ST-reader model + stuck predicate over /proc task states",
+        },
+        "assumptions": ["the ST reader on the same faulty input is the model of 'input incomplete or corrupt'",
+                        "stuck predicate: all other threads in state S with constant CPU time over repeated samples while all "
+                        "I/O is in memory"],
+    },
+    "C10": {
+        "level": "exploration",
+        "variants": {
+            "quick": [("rel", {})],
+            "thorough": [("rel", {"timeout": 4 * 3600})],
+        },
+        "floors": ["runs_with_delay_in_steal_window", "workers_started"],
+        "rule": "history = construct(requested workers in {0,1,2,3,16,256,257,1000,u32::MAX}) -> {nothing, partial I/O, "
+                "mid-unit, all I/O, error, finish} -> drop, for the four MT types, under failpoint delays placed inside the "
+                "steal window (between the closed check and the condvar wait) and inside close (between store and notify). "
+                "Monitors: drop returns (stuck predicate), WorkerGuard census reaches zero afterwards (a remaining worker "
+                "with all threads asleep is a leak), census peak <= clamp(requested,1,256). Cell = type|drop point|requested; "
+                "non-trivial = at least one worker thread was started.",
+        "manifest": {
+            "text": "Exploration over drop/finish histories with scheduling noise aimed at the shutdown hand-shake; the worker "
+                    "census hook makes leaked threads observable, Miri turns them into exact deadlock reports.",
+            "note": "Census hook counts threads from spawn to exit of the worker closure.",
+            "technique": "runtime monitoring: worker census hook + failpoint delays + stuck predicate; Miri deadlock detection",
+        },
+        "assumptions": ["one MT object at a time per process so that the global census is per instance"],
+    },
 }
 
 
